@@ -325,7 +325,8 @@ def _run_history(h, build, hooks, logf, flagdir, base):
                     errored = bool(res.errored)
                     outs = res.outputs
                 if errored:
-                    ob["reported"] = ["err", "result.errored"]
+                    # C13: the failure comes with the recorded error (_error.pklz readable through Result.errors)
+                    ob["reported"] = ["err", "result.errored", bool(res.errors)]
                 else:
                     ob["reported"] = ["ok", {a.name: _canon(getattr(outs, a.name)) for a in attrs.fields(type(outs))
                                              if not a.name.startswith("_")}]
@@ -614,6 +615,9 @@ def build_cases(histories, observations, pool=POOL):
                     task_term(step["desc"], idx, pool), step["root"], coqio.lst([str(i) for i in step["ro"]]),
                     coqio.boolean(step["prop"] if step["how"] != "call" else True), coqio.boolean(step["rerun"])))
                 rep = res_term(so["reported"], intern)
+                if so["reported"][0] == "err" and len(so["reported"]) > 2 and not so["reported"][2]:
+                    problems.append((info, so["reported"], "a failure is reported without the recorded error "
+                                     "(Result.errors is empty)", "spec"))
                 # the value a hit hands over is not visible in the hook log: take the reported one for the
                 # submitted task, otherwise the stored success the harness finds (none => sentinel 0)
                 pre_lookup = {(l, c): s for l, c, s in pre_tab}
@@ -677,7 +681,7 @@ def describe(m):
     return {"steps": m["steps_so_far"], "step_index": m["step"]}
 
 
-def run(ctx, prop="C11", pool=POOL, gen=gen_history, rule=None, budget=(40, 600)):
+def run(ctx, prop="C11", pool=POOL, gen=gen_history, rule=None, budget=(40, 450)):
     rng = ctx.rng
     os.makedirs(ctx.scratch.dir, exist_ok=True)   # the runner's widened context shares (and removes) this directory
     n = ctx.budget(*budget)
@@ -725,9 +729,10 @@ def run(ctx, prop="C11", pool=POOL, gen=gen_history, rule=None, budget=(40, 600)
     out.distribution = dist
     out.samples = [{"step": m["op"], "store_before": m["pre"], "events": m.get("events"), "reported": m["reported"],
                     "store_after": m["post"]} for m in meta if m["op"]["op"] == "submit" and m["pre"]][:4]
-    for info, observed, note in problems[:10]:
+    for pr in problems[:10]:
+        info, observed, note = pr[:3]
         out.failures.append(Failure(case=describe(info) if "steps_so_far" in info else info, observed=observed,
-                                    expected=None, note=note, kind="tie"))
+                                    expected=None, note=note, kind=pr[3] if len(pr) > 3 else "tie"))
     for i in res["spec"][:10]:
         m = meta[i]
         out.failures.append(Failure(case=describe(m), observed={"events": m.get("events"), "reported": m["reported"],
